@@ -42,7 +42,6 @@ Section MovingLib.
   Hypothesis Hnofail : c_fail_at cfg = None.
   Hypothesis Hnew : f_new (c_filter cfg) = true.
   Hypothesis Hundo : f_undo (c_filter cfg) = true.
-  Hypothesis Hincl : c_incl cfg = false.
 
   Hypothesis U_id : forall b, In b U -> bid b <> 0 /\ bparent b <> 0 /\ bid b <> bparent b.
   Hypothesis U_uniq : forall x y, In x U -> In y U -> bid x = bid y -> x = y.
@@ -205,45 +204,54 @@ Section MovingLib.
   Record Inv (s : fstate) (Fin : list block) (S : cstack) : Prop := mkInv {
     i_db : DbInv (db s);
     i_fin : Forall (fun x => In x U /\ bnum x <= rn (libref (db s))) Fin;
-    i_fin_linked : linked (ri r0) Fin;
     i_fin_last : match rev Fin with t :: _ => bid t = ri (libref (db s)) | [] => libref (db s) = r0 end;
     i_head : match last_sent s with
-             | None => S = [] /\ Fin = [] /\ forall e, In e (store (db s)) -> esent e = false
+             | None => S = [] /\ Fin = [] /\ (forall e, In e (store (db s)) -> esent e = false) /\
+                       (c_incl cfg = true -> find (ri r0) (store (db s)) = None)
              | Some hd => In hd U /\
                  exists p, chain (store (db s)) (bid hd) (ri (libref (db s))) p /\
                            S = rev (Fin ++ map eb p) /\ Forall (fun e => esent e = true) p
              end
   }.
 
-  Lemma inv_init : Inv (fs_init (LExcl r0)) [] [].
+  (* the two modes with a configured starting LIB differ only in lastLIBSeen, which the invariant ignores *)
+  Definition rooted (m : libmode) : Prop := m = LExcl r0 \/ m = LIncl r0.
+
+  Lemma inv_init m : rooted m -> Inv (fs_init m) [] [].
   Proof.
-    constructor; cbn.
-    - constructor; cbn.
-      + constructor.
-      + intros e [].
-      + apply lib_coh_r0.
-      + unfold num_of. cbn. rewrite N.eqb_refl. reflexivity.
-      + right. reflexivity.
-      + intros e [].
-    - constructor.
-    - exact I.
-    - reflexivity.
-    - split; [reflexivity|]. split; [reflexivity | intros e []].
+    intros [-> | ->]; (constructor; cbn;
+     [ constructor; cbn;
+       [ constructor | intros e [] | apply lib_coh_r0
+       | unfold num_of; cbn; rewrite N.eqb_refl; reflexivity | right; reflexivity | intros e [] ]
+     | constructor | reflexivity
+     | split; [reflexivity|]; split; [reflexivity|]; split; [intros e [] | reflexivity] ]).
   Qed.
 
-  (* the whole consumer chain is parent-linked from r0 *)
-  Lemma inv_linked s Fin S x p : Inv s Fin S -> chain (store (db s)) x (ri (libref (db s))) p ->
-    linked (ri r0) (Fin ++ map eb p).
+  (* the id the pending chain rests on: the last final block, or r0 *)
+  Definition tipid (Fin : list block) : N := match rev Fin with t :: _ => bid t | [] => ri r0 end.
+
+  Lemma inv_tipid s Fin S : Inv s Fin S -> tipid Fin = ri (libref (db s)).
   Proof.
-    intros HI Hc. apply linked_join; [apply (i_fin_linked _ _ _ HI)|].
-    destruct (chain_linked _ _ _ _ Hc) as [Hl _]. pose proof (i_fin_last _ _ _ HI) as Hlast.
-    destruct (rev Fin) as [|t r]; [rewrite Hlast in Hl | rewrite Hlast]; exact Hl.
+    intros HI. pose proof (i_fin_last _ _ _ HI) as Hlast. unfold tipid.
+    destruct (rev Fin) as [|t r]; [rewrite Hlast; reflexivity | exact Hlast].
   Qed.
+
+  (* the pending chain is parent-linked from there *)
+  Lemma inv_linked s Fin S x p : Inv s Fin S -> chain (store (db s)) x (ri (libref (db s))) p ->
+    linked (tipid Fin) (map eb p).
+  Proof.
+    intros HI Hc. rewrite (inv_tipid _ _ _ HI). destruct (chain_linked _ _ _ _ Hc) as [Hl _]. exact Hl.
+  Qed.
+
+  (* the inclusive first delivery: the LIB block itself arrives before anything was sent *)
+  Definition incl_first (s : fstate) (b : block) : bool :=
+    c_incl cfg && (match last_sent s with None => true | Some _ => false end) && (bid b =? ri (libref (db s))).
 
   (* ---------------------------------------------------------------- ProcessBlock, unfolded for this configuration *)
 
   Lemma fk_step_new' s b undos redos junc :
     DbInv (db s) -> In b U -> find (bid b) (store (db s)) = None -> dropped s b = false ->
+    incl_first s b = false ->
     sw_of cfg s b = ScssOk undos redos junc ->
     fk_step cfg s b =
       let s1 := with_db s (new_db (db s) b) in
@@ -254,9 +262,9 @@ Section MovingLib.
           else process_tail cfg s1 b undos redos junc longest None
       end.
   Proof.
-    intros Hd Hb Hf Hdr Hsw. destruct (U_id b Hb) as (H1 & H2 & H3).
+    intros Hd Hb Hf Hdr Hni Hsw. destruct (U_id b Hb) as (H1 & H2 & H3).
     unfold fk_step. destruct (N.eqb_spec (bid b) (bparent b)); [contradiction|].
-    unfold dropped in Hdr. rewrite Hdr, Hincl. cbn [andb].
+    unfold dropped in Hdr. unfold incl_first in Hni. rewrite Hdr, Hni.
     unfold sw_of in Hsw. rewrite Hsw.
     rewrite (add_link_new U U_id _ _ Hb Hf).
     assert (Hhl : has_lib (new_db (db s) b) = true).
@@ -339,16 +347,19 @@ Section MovingLib.
   Qed.
 
   Lemma inv_add s Fin S b : Inv s Fin S -> In b U -> find (bid b) (store (db s)) = None ->
+    incl_first s b = false ->
     Inv (with_db s (new_db (db s) b)) Fin S.
   Proof.
-    intros [Hd Hfin Hfl Hflast Hh] Hb Hf.
+    intros [Hd Hfin Hflast Hh] Hb Hf Hni.
     constructor; cbn [with_db db new_db store extra libref last_sent]; try assumption.
     - apply (dbinv_add _ _ Hd Hb Hf).
-    - destruct (last_sent s) as [hd|].
+    - unfold incl_first in Hni. destruct (last_sent s) as [hd|].
       + destruct Hh as (HhU & p & Hc & HS & Hs). split; [exact HhU|].
         exists p. repeat split; try assumption. apply chain_ext. exact Hc.
-      + destruct Hh as (-> & -> & Hall). repeat split.
-        intros e He. apply in_app_or in He as [He|[<-|[]]]; [apply Hall; exact He | reflexivity].
+      + destruct Hh as (-> & -> & Hall & Hroot). cbn [rev] in Hflast. split; [reflexivity|]. split; [reflexivity|]. split.
+        * intros e He. apply in_app_or in He as [He|[<-|[]]]; [apply Hall; exact He | reflexivity].
+        * intros Hi. rewrite find_app, (Hroot Hi). cbn [find eb].
+          rewrite Hi, Hflast in Hni. cbn [andb] in Hni. rewrite Hni. reflexivity.
   Qed.
 
   (* below the LIB the undo chain never meets a block that sits above the LIB *)
@@ -452,7 +463,7 @@ Section MovingLib.
       Forall (fun e => estep e = SNew) evRN.
   Proof.
     intros HI Hb Hc HP HC HS.
-    pose proof HI as [Hd Hfin Hfl Hflast Hh]. pose proof Hd as [Hnd HU Hcoh Hnum Hextra Hlc].
+    pose proof HI as [Hd Hfin Hflast Hh]. pose proof Hd as [Hnd HU Hcoh Hnum Hextra Hlc].
     set (en := mkEntry b false) in *. set (q := pP ++ [en]) in *.
     assert (Hq : forall e, In e q -> In e (store (db s1))) by (intros e He; eapply chain_in; eassumption).
     assert (HcP : chain (store (db s1)) (bparent b) (ri (libref (db s1))) pP).
@@ -485,15 +496,16 @@ Section MovingLib.
       + f_equal. rewrite Hq2. symmetry. apply rev_app_distr.
       + apply Forall_app. split; assumption.
       + exact HmRN.
-      + rewrite Hq2 in Hlk. apply linked_split in Hlk as [_ Hlk].
-        destruct (rev (Fin ++ map eb C)); exact Hlk.
+      + assert (Hq3 : map eb q = map eb C ++ map eb (R ++ [en])).
+        { unfold q. rewrite HP, <- (app_assoc C R), (map_app eb C). reflexivity. }
+        rewrite Hq3 in Hlk. apply linked_split in Hlk as [_ Hlk]. rewrite rev_app_distr. unfold tipid in Hlk.
+        destruct (rev (map eb C)) as [|t r]; cbn [app]; [destruct (rev Fin); exact Hlk | exact Hlk].
     - (* the invariant *)
       set (g := flag_if (map sid (unsent (map seg_of q)))).
       pose proof (l3_chain _ q _ _ _ Hc) as Hc3. fold g in Hc3.
       constructor.
       + exact Hd3.
       + rewrite Hlr. exact Hfin.
-      + exact Hfl.
       + rewrite Hlr. exact Hflast.
       + rewrite Hls'. split; [exact Hb|]. exists (map g q). rewrite Hst, Hlr. split; [exact Hc3|]. split.
         * do 2 f_equal. rewrite map_map. apply map_ext. intros a. symmetry. apply flag_if_eb.
@@ -558,6 +570,7 @@ Section MovingLib.
       (if f_irr (c_filter cfg) then map eblk evI = Fnew else evI = []) /\
       rn (libref (db s3)) <= rn (libref (db s')) /\
       Forall (fun x => rn (libref (db s3)) < bnum x /\ bnum x <= blib b) Fnew /\
+      linked (ri (libref (db s3))) Fnew /\
       (Fnew = [] -> s' = s3 /\ evS = []) /\
       (forall e, In e evS -> In (eblk e) U /\ rn (libref (db s3)) < bnum (eblk e) <= rn (libref (db s')) /\
                             ~ In (bid (eblk e)) (map bid S3)) /\
@@ -569,8 +582,11 @@ Section MovingLib.
     LibHalf s3 Fin S3 b evs (s3, evs, ROk).
   Proof.
     intros HI Hls. exists s3, [], [], []. rewrite !app_nil_r. split; [reflexivity|].
-    split; [exact HI|]. split; [exact Hls|]. repeat split; try constructor; auto.
-    all: try (destruct (f_irr (c_filter cfg)); reflexivity); try lia; try contradiction.
+    split; [exact HI|]. split; [exact Hls|].
+    split; [constructor|]. split; [constructor|].
+    split; [destruct (f_irr (c_filter cfg)); reflexivity|]. split; [lia|].
+    split; [constructor|]. split; [exact I|]. split; [auto|]. split; [intros e []|]. split; [constructor|].
+    intros x Hx Hk. left. exact Hk.
   Qed.
 
   Lemma seg_of_sid l : map sid (map seg_of l) = keys l.
@@ -584,7 +600,7 @@ Section MovingLib.
     LibHalf s3 Fin S3 b evs (lib_tail s3 b evs).
   Proof.
     intros HI Hls Hb Hne.
-    pose proof HI as [Hd Hfin Hfl Hflast Hh]. rewrite Hls in Hh. destruct Hh as (_ & p & Hc & HS & Hsent).
+    pose proof HI as [Hd Hfin Hflast Hh]. rewrite Hls in Hh. destruct Hh as (_ & p & Hc & HS & Hsent).
     pose proof Hd as [Hnd HU Hcoh Hnum Hextra Hlc].
     pose proof (di_wf _ Hd) as Hwf. pose proof (di_lid _ Hd) as Hlid. pose proof (di_up _ Hd) as Hup.
     destruct p as [|et p' _] using rev_ind.
@@ -647,8 +663,6 @@ Section MovingLib.
             rewrite Hlibn. specialize (Habove a Hain). lia.
           + apply Forall_forall. intros x Hx. apply in_map_iff in Hx as (e & <- & He).
             destruct (HA e He) as [Hes Hn]. split; [apply HU; exact Hes | rewrite Hlibn; lia].
-        - pose proof (inv_linked s3 Fin S3 _ _ HI Hc) as Hlk. rewrite Hsplit in Hlk.
-          apply linked_split in Hlk. tauto.
         - rewrite map_app, app_assoc, rev_app_distr. cbn [map rev app]. rewrite Hl'. reflexivity.
         - rewrite Hlast. split; [exact Hb|]. exists B. rewrite Hl'. cbn [ri]. split; [exact Hc'|].
           split; [rewrite HS, Hsplit; reflexivity|].
@@ -659,6 +673,8 @@ Section MovingLib.
       split.
       { apply Forall_forall. intros x Hx. apply in_map_iff in Hx as (e & <- & He).
         destruct (HA e He) as [_ Hn]. lia. }
+      split.
+      { pose proof (chain_prefix _ _ _ _ _ _ Hc) as Hpre. destruct (chain_linked _ _ _ _ Hpre) as [Hlk _]. exact Hlk. }
       split.
       { intros Hnil. apply map_eq_nil in Hnil. destruct A; discriminate. }
       (* the stalled blocks *)
@@ -721,11 +737,16 @@ Section MovingLib.
       Forall (fun e => estep e = SIrr) evI /\ Forall (fun e => estep e = SStalled) evS /\
       (if f_irr (c_filter cfg) then map eblk evI = Fnew else evI = []) /\
       rn (libref (db s)) <= rn (libref (db s')) /\
-      Forall (fun x => rn (libref (db s)) < bnum x /\ bnum x <= blib b) Fnew /\
+      (* the blocks that become final: a parent-linked run that rests on the old LIB, or (inclusive
+         first delivery) the starting LIB block itself, delivered as New by the same step *)
+      ((Forall (fun x => rn (libref (db s)) < bnum x /\ bnum x <= blib b) Fnew /\ linked (ri (libref (db s))) Fnew) \/
+       (last_sent s = None /\ bid b = ri r0 /\ Fnew = [b] /\ evS = [] /\
+        exists e, evA = [e] /\ estep e = SNew /\ eblk e = b)) /\
       (Fnew = [] -> evS = [] /\ libref (db s') = libref (db s)) /\
       (forall e, In e evS -> In (eblk e) U /\ rn (libref (db s)) < bnum (eblk e) <= rn (libref (db s')) /\
                             ~ In (bid (eblk e)) (map bid S')) /\
       NoDup (map (fun e => bid (eblk e)) evS) /\
+      (S = [] \/ S' <> []) /\
       (known s b -> s' = s /\ evA = [] /\ evI = [] /\ evS = []) /\
       (forall x, In x U -> known s x -> known s' x) /\
       known s' b.
@@ -738,7 +759,8 @@ Section MovingLib.
     split; [reflexivity|]. split; [reflexivity|]. split; [rewrite app_nil_r; exact HI|].
     split; [constructor|]. split; [intros e []|]. split; [constructor|]. split; [constructor|].
     split; [destruct (f_irr (c_filter cfg)); reflexivity|]. split; [rewrite Hl; lia|].
-    split; [constructor|]. split; [auto|]. split; [intros e []|]. split; [constructor|].
+    split; [left; split; [constructor | exact I]|]. split; [auto|]. split; [intros e []|]. split; [constructor|].
+    split; [destruct S; [left; reflexivity | right; discriminate]|].
     split; [intros H; auto|]. split; [exact Hk2 | exact Hk3].
   Qed.
 
@@ -760,11 +782,12 @@ Section MovingLib.
     libref (db s3) = libref (db s) -> bid b <> ri (libref (db s3)) ->
     Forall (fun e => estep e = SUndo) evU -> Forall (fun e => estep e = SNew) evRN ->
     (forall e, In e evU -> In (eblk e) U /\ rn (libref (db s)) < bnum (eblk e)) ->
+    S3 <> [] ->
     StepOut s Fin S b (lib_tail s3 b (evU ++ evRN)).
   Proof.
-    intros HI Hb Hk Hdr Happ HI3 Hk3 Hls3 Hl3 Hne HsU HsRN HuU.
+    intros HI Hb Hk Hdr Happ HI3 Hk3 Hls3 Hl3 Hne HsU HsRN HuU HS3.
     destruct (lib_half s3 Fin S3 b (evU ++ evRN) HI3 Hls3 Hb Hne)
-      as (s' & evI & evS & Fnew & -> & HI' & Hls' & HsI & HsS & HmI & Hmono & HFnew & Hnil & Hst & Hnd & Hkeys).
+      as (s' & evI & evS & Fnew & -> & HI' & Hls' & HsI & HsS & HmI & Hmono & HFnew & HFlk & Hnil & Hst & Hnd & Hkeys).
     rewrite Hl3 in *.
     exists s', (evU ++ evRN), evI, evS, Fnew, S3.
     split; [reflexivity|]. split; [exact Happ|]. split; [exact HI'|].
@@ -774,10 +797,10 @@ Section MovingLib.
     { intros e He Hs. apply in_app_or in He as [He|He]; [apply HuU; exact He|].
       rewrite Forall_forall in HsRN. rewrite (HsRN e He) in Hs. discriminate. }
     split; [exact HsI|]. split; [exact HsS|]. split; [exact HmI|]. split; [exact Hmono|].
-    split; [exact HFnew|].
+    split; [left; split; [exact HFnew | exact HFlk]|].
     split.
     { intros Hn. destruct (Hnil Hn) as [-> ->]. auto. }
-    split; [exact Hst|]. split; [exact Hnd|].
+    split; [exact Hst|]. split; [exact Hnd|]. split; [right; exact HS3|].
     assert (Hdrop : forall x, bnum x < rn (libref (db s')) -> dropped s' x = true).
     { intros x Hx. unfold dropped. rewrite Hls'. apply andb_true_iff. split; [apply N.ltb_lt; exact Hx | reflexivity]. }
     assert (Hkn : forall x, In x U -> In (bid x) (keys (store (db s3))) -> known s' x).
@@ -791,18 +814,96 @@ Section MovingLib.
     - apply Hkn; [exact Hb|]. rewrite Hk3. apply in_or_app. right. left. reflexivity.
   Qed.
 
+  Lemma fk_step_old' s b e : in_U (store (db s)) -> In b U -> find (bid b) (store (db s)) = Some e ->
+    wf_store (store (db s)) -> incl_first s b = false ->
+    fk_step cfg s b = (s, [], ROk).
+  Proof.
+    intros HU Hb Hf Hwf Hni. destruct (U_id b Hb) as (H1 & H2 & H3).
+    unfold fk_step. destruct (N.eqb_spec (bid b) (bparent b)); [contradiction|].
+    destruct ((bnum b <? rn (libref (db s))) && match last_sent s with Some _ => true | None => false end); [reflexivity|].
+    unfold incl_first in Hni. rewrite Hni.
+    assert (Hsw : exists u r j, (if f_undo (c_filter cfg) && triggers cfg s b
+             then match last_sent s with Some ls => sent_chain_switch_segments (db s) (bid ls) (bparent b) | None => ScssOk [] [] None end
+             else ScssOk [] [] None) = ScssOk u r j).
+    { destruct (f_undo (c_filter cfg) && triggers cfg s b); [|eauto].
+      destruct (last_sent s) as [ls|]; [apply scss_total; exact Hwf | eauto]. }
+    destruct Hsw as (u & r & j & ->).
+    rewrite (add_link_old U U_id U_uniq _ _ _ HU Hb Hf). reflexivity.
+  Qed.
+
+  (* the inclusive first delivery: New + Irreversible for the starting LIB block itself *)
+  Lemma step_root s Fin S b : Inv s Fin S -> In b U -> dropped s b = false -> incl_first s b = true ->
+    StepOut s Fin S b (fk_step cfg s b).
+  Proof.
+    intros HI Hb Hd Hinc. pose proof HI as [Hdb Hfin Hflast Hh].
+    unfold incl_first in Hinc. apply andb_true_iff in Hinc as [Hinc Hid]. apply andb_true_iff in Hinc as [Hci Hls].
+    destruct (last_sent s) as [hd|] eqn:Els; [discriminate|]. destruct Hh as (-> & -> & Hall & Hroot).
+    cbn [rev] in Hflast. apply N.eqb_eq in Hid. rewrite Hflast in Hid.
+    specialize (Hroot Hci).
+    assert (Hf : find (bid b) (store (db s)) = None) by (rewrite Hid; exact Hroot).
+    assert (Hk : ~ In (bid b) (keys (store (db s)))) by (apply find_none; exact Hf).
+    destruct (U_id b Hb) as (H1 & H2 & H3).
+    unfold fk_step. destruct (N.eqb_spec (bid b) (bparent b)); [contradiction|].
+    unfold dropped in Hd. rewrite Els in *. rewrite Hd, Hci, Hflast.
+    replace (bid b =? ri r0) with true by (symmetry; apply N.eqb_eq; exact Hid). cbn [andb].
+    rewrite (add_link_new U U_id _ _ Hb Hf). cbn [fst].
+    pose proof (dbinv_add _ _ Hdb Hb Hf) as Hdb1.
+    set (s1 := with_db s (new_db (db s) b)).
+    unfold process_initial_inclusive. rewrite Hnew, (call_ok cfg Hnofail). cbv beta iota zeta.
+    set (tiny := mkSeg (bid b) (bnum b) (mkEntry b false)).
+    set (ev := mkEv SNew b (seg_ref tiny) (seg_ref tiny) (cursor_lib s1) None 0 0).
+    set (s1' := mkFS (db (mkFS (db s1) (last_sent s1) (last_lib_seen s1) (ncalls s1 + 1))) (Some b)
+                     (last_lib_seen (mkFS (db s1) (last_sent s1) (last_lib_seen s1) (ncalls s1 + 1)))
+                     (ncalls (mkFS (db s1) (last_sent s1) (last_lib_seen s1) (ncalls s1 + 1)))).
+    destruct (process_irr_segment_ok cfg Hnofail [tiny] tiny [] (bref b) s1' eq_refl)
+      as (s2 & ev2 & Hrun & Hdb2 & Hls2 & Hlls2 & Hm2 & Hs2).
+    rewrite Hrun. cbv beta iota.
+    assert (Hdbs2 : db s2 = new_db (db s) b) by (rewrite Hdb2; reflexivity).
+    assert (Hlast2 : last_sent s2 = Some b) by (rewrite Hls2; reflexivity).
+    exists s2, [ev], ev2, [], [b], [b]. rewrite app_nil_r.
+    split; [reflexivity|].
+    split.
+    { cbn [apply_all apply_ev ev estep eblk]. unfold root_ok. rewrite Hid, N.eqb_refl. reflexivity. }
+    split.
+    { constructor; rewrite ?Hdbs2; cbn [new_db libref store app].
+      - exact Hdb1.
+      - constructor; [|constructor]. split; [exact Hb|]. rewrite Hflast, (L_num b Hb Hid). lia.
+      - cbn [rev app]. rewrite Hflast. exact Hid.
+      - rewrite Hlast2. split; [exact Hb|]. exists []. rewrite Hflast, Hid. split; [constructor|].
+        split; [reflexivity | constructor]. }
+    split; [constructor; [right; reflexivity | constructor]|].
+    split; [intros e [<-|[]] He; discriminate|].
+    split; [exact Hs2|]. split; [constructor|].
+    split.
+    { destruct (f_irr (c_filter cfg)); exact Hm2. }
+    split; [rewrite Hdbs2; cbn [new_db libref]; lia|].
+    split.
+    { right. split; [exact Els|]. split; [exact Hid|]. split; [reflexivity|]. split; [reflexivity|].
+      exists ev. auto. }
+    split; [discriminate|]. split; [intros e []|]. split; [constructor|]. split; [left; reflexivity|].
+    split.
+    { intros [H|H]; [contradiction | unfold dropped in H; rewrite Els, andb_false_r in H; discriminate]. }
+    split.
+    - intros x Hx [H|H].
+      + left. rewrite Hdbs2. cbn [new_db store]. rewrite keys_snoc. apply in_or_app. left. exact H.
+      + unfold dropped in H. rewrite Els, andb_false_r in H. discriminate.
+    - left. rewrite Hdbs2. cbn [new_db store]. rewrite keys_snoc. apply in_or_app. right. left. reflexivity.
+  Qed.
+
   Lemma step_inv s Fin S b : Inv s Fin S -> In b U -> StepOut s Fin S b (fk_step cfg s b).
   Proof.
     intros HI Hb.
     destruct (dropped s b) eqn:Hd.
     { rewrite (fk_step_dropped U cfg U_id s b Hb Hd). apply stepout_quiet; auto. right. exact Hd. }
-    pose proof HI as [Hdb Hfin Hfl Hflast Hh]. pose proof Hdb as [Hnd HU Hcoh Hnum Hextra Hlc].
+    destruct (incl_first s b) eqn:Hni.
+    { apply step_root; assumption. }
+    pose proof HI as [Hdb Hfin Hflast Hh]. pose proof Hdb as [Hnd HU Hcoh Hnum Hextra Hlc].
     pose proof (di_wf _ Hdb) as Hwf.
     destruct (find (bid b) (store (db s))) as [e|] eqn:Hf.
-    { rewrite (fk_step_old U cfg Hincl U_id U_uniq s b e HU Hb Hf Hwf). apply stepout_quiet; auto.
+    { rewrite (fk_step_old' s b e HU Hb Hf Hwf Hni). apply stepout_quiet; auto.
       left. apply find_is_some_in. eauto. }
     (* a new block *)
-    pose proof (inv_add s Fin S b HI Hb Hf) as HI1.
+    pose proof (inv_add s Fin S b HI Hb Hf Hni) as HI1.
     set (s1 := with_db s (new_db (db s) b)) in *.
     set (en := mkEntry b false).
     assert (Hk : ~ In (bid b) (keys (store (db s)))) by (apply find_none; exact Hf).
@@ -814,8 +915,8 @@ Section MovingLib.
     { unfold sw_of. destruct (f_undo (c_filter cfg) && triggers cfg s b); [|eauto].
       destruct (last_sent s) as [ls|]; [apply scss_total; exact Hwf | eauto]. }
     destruct Hsw as (undos & redos & junc & Hsw).
-    rewrite (fk_step_new' s b undos redos junc Hdb Hb Hf Hd Hsw). cbv zeta. fold s1.
-    pose proof HI1 as [Hdb1 _ _ _ _]. pose proof Hdb1 as [Hnd1 HU1 _ _ _ _].
+    rewrite (fk_step_new' s b undos redos junc Hdb Hb Hf Hd Hni Hsw). cbv zeta. fold s1.
+    pose proof HI1 as [Hdb1 _ _ _]. pose proof Hdb1 as [Hnd1 HU1 _ _ _ _].
     pose proof (di_wf _ Hdb1) as Hwf1.
     change (new_db (db s) b) with (db s1).
     destruct (rs_total (db s1) first Hwf1 (fuel_of (db s1)) (bid b) (bnum b) [] (enough_fuel_of _ _)) as [[longest reach] Hrs].
@@ -860,7 +961,7 @@ Section MovingLib.
         * exact HsH.
         * rewrite app_nil_r. exact HS.
         * cbn [rev filter] in Hrun. fold en in Hrun. rewrite Hrun.
-          eapply step_finish; eauto; try congruence.
+          eapply step_finish; eauto; try congruence; try (rewrite map_app, app_assoc, rev_app_distr; discriminate).
           apply map_eq_nil in HmU. subst evU. intros e0 [].
       + destruct (scss_link (db s) _ (bid hd) (bparent b) pH pP Hwf Hneq HcH HcP0) as (C & R & Uh & j & HP & HH & Hsc).
         { intros f t e0 Hu He0. exact (tail_disjoint' (db s) pP (bparent b) Hdb HcP0 f t e0 Hu He0). }
@@ -869,7 +970,7 @@ Section MovingLib.
           (s3 & evU & evRN & Hrun & Happ & HI3 & Hk3 & Hls3 & Hlr3 & HmU & HsU & HsRN).
         * rewrite HH in HsH. apply Forall_app in HsH. tauto.
         * rewrite HS, HH. reflexivity.
-        * fold en in Hrun. rewrite Hrun. eapply step_finish; eauto; try congruence.
+        * fold en in Hrun. rewrite Hrun. eapply step_finish; eauto; try congruence; try (rewrite map_app, app_assoc, rev_app_distr; discriminate).
           apply (evs_blocks (fun x => In x U /\ rn (libref (db s)) < bnum x) evU (rev Uh) HmU).
           intros a Ha. apply HpH. rewrite HH. apply in_or_app. right. apply in_rev. exact Ha.
     - injection Hsw as <- <- <-. destruct Hh as (-> & -> & Hall).
@@ -881,7 +982,7 @@ Section MovingLib.
       destruct (trigger_first s1 [] [] b pP [] pP [] None HI1 Hb Hc eq_refl (Forall_nil _) eq_refl) as
         (s3 & evU & evRN & Hrun & Happ & HI3 & Hk3 & Hls3 & Hlr3 & HmU & HsU & HsRN).
       cbn [rev] in Hrun. rewrite Hfil in Hrun. fold en in Hrun. rewrite Hrun.
-      eapply step_finish; eauto; try congruence.
+      eapply step_finish; eauto; try congruence; try (rewrite map_app, app_assoc, rev_app_distr; discriminate).
       apply map_eq_nil in HmU. subst evU. intros e0 [].
   Qed.
 
@@ -899,7 +1000,7 @@ Section MovingLib.
     induction h as [|b h IH]; intros s Fin S seen HI Hh Hseen.
     - cbn. repeat split; [constructor | exists S; reflexivity].
     - destruct (step_inv s Fin S b HI (Hh b (or_introl eq_refl))) as
-        (s' & evA & evI & evS & Fnew & S' & Hstep & Happ & HI' & _ & _ & HsI & HsS & _ & _ & _ & _ & _ & _ & Hk1 & Hk2 & Hk3).
+        (s' & evA & evI & evS & Fnew & S' & Hstep & Happ & HI' & _ & _ & HsI & HsS & _ & _ & _ & _ & _ & _ & _ & Hk1 & Hk2 & Hk3).
       cbn [fk_run]. rewrite Hstep.
       assert (Hseen' : Seen s' (b :: seen)).
       { intros x [<-|Hx].
@@ -921,16 +1022,17 @@ Section MovingLib.
         destruct (Hseen b Hx) as [_ Hb]. destruct (Hk1 Hb) as (_ & -> & -> & ->). reflexivity.
   Qed.
 
-  Theorem moving_lib_run h : (forall b, In b h -> In b U) ->
-    let t := fk_run cfg (fs_init (LExcl r0)) h in
+  Theorem moving_lib_run m h : rooted m -> (forall b, In b h -> In b U) ->
+    let t := fk_run cfg (fs_init m) h in
     length t = length h /\ Forall (fun x => snd x = ROk) t /\
-    c01_discipline_b (LExcl r0) t = true /\ c01_refeed_b [] h t = true /\
+    c01_discipline_b m t = true /\ c01_refeed_b [] h t = true /\
     c01_error_b (c_fail_at cfg) 0 t = true.
   Proof.
-    intros Hh. destruct (run_c01 h (fs_init (LExcl r0)) [] [] [] inv_init Hh) as (Hlen & Hok & (S' & Happ) & Hre).
+    intros Hm Hh. destruct (run_c01 h (fs_init m) [] [] [] (inv_init m Hm) Hh) as (Hlen & Hok & (S' & Happ) & Hre).
     { intros x []. }
     cbn zeta. repeat split; try assumption.
-    - unfold c01_discipline_b, root_lib. rewrite Happ. reflexivity.
+    - unfold c01_discipline_b. replace (root_lib m (fk_run cfg (fs_init m) h)) with (ri r0) by (destruct Hm as [-> | ->]; reflexivity).
+      rewrite Happ. reflexivity.
     - rewrite Hnofail. apply error_ok. exact Hok.
   Qed.
 End MovingLib.
